@@ -31,6 +31,13 @@ PARTIAL = ('proved (Properties/C09.v, all closed under the global context): (1) 
            'the site solver at the split site changes the dense state by G t (encodes exp(t V^H H V) = V^H exp(tH) V for unitary V); per recorded QR call: LAPACK contract, R with as many rows as the input has columns, '
            'orthonormal rows of Q for square inputs; hdt + hdt = dt; start tensors right of m right-unitary. No QR uniqueness / gauge covariance / invertibility needed (Lubich-Oseledets-Vandereycken cancellation of K- and S-steps). '
            'Non-vacuity: rational L = 2 instance with H = sigma+ x sigma+, environment-dependent exact solvers, all contracts proved for all arguments, rotation QR oracle (C09_exact_nonvacuous, C09_exact_nontrivial). '
+           '(3b) CONTRACT (A) IS NOW DERIVED, not assumed (C09_exact_complete_natural, every L >= 1; also _L1_natural, _L2_natural): its tensor-network content is proved for the model\'s own functions over any commutative ring '
+           '(C09_complete_frames_unitary_embedding: between left-/right-unitary frames, with environment blocks iterated by contraction_operator_step_left/right from [[[1]]], the embedding E: site tensor at the split site -> dense vector '
+           'is linear, inner-product preserving, has a two-sided inverse, and E(apply_local_hamiltonian BL BR W X) = as_matrix(MPO) * E(X); uses C04\'s projection theorem; the dense matrix is the model\'s MPO.as_matrix, '
+           'C09_dense_operator_is_as_matrix), and (A) follows (C09_natural_implies_global) from the purely analytic contract solver_natural: for every unitary E intertwining the local operator handed to the solver with the dense matrix, '
+           'E(solver(t) X) = G t (E X) -- i.e. the similarity invariance of the matrix exponential under unitaries, exp(t U^-1 H U) = U^-1 exp(tH) U (equivalently A U = U B => exp(tA) U = U exp(tB)); no frame, environment block or MPS occurs in it. '
+           'Checked on the nilpotent rational example for all arguments over any ring (C09_nilpotent_solver_natural: solver = X + t*H_loc X, G = v + t*Hdense v) and the example run re-derived through it (C09_exact_natural_nonvacuous). '
+           'Remaining contracts of the exactness theorem: (F) flow in t, (S0) shapes, (IL)/(IR) (algebra proved; analytic part "H1 V = V H2 => exp(tH1) V = V exp(tH2)"), solver_natural, (G) group property of G, per-call QR contract. '
            'NOT proved: exactness of the TWO-SITE integrator; exactness with quantum numbers (fails in some sectors: known finding K1, tdvp-*-mixed-complete-sector); that the floating-point Krylov exponential meets '
            'the contracts (it does up to the Krylov error; measured by prop() against scipy.linalg.expm); reversibility when a bond matrix is rank deficient; contract (d) from the QR contract of orthonormalize')
 ASSUMPTIONS = SR.ASSUMPTIONS
